@@ -301,6 +301,22 @@ def raft_seam(ctx):
     scripts = c17.scripts_from_graph(ctx, rng, gen_cfg, 8 if ctx.quick() else 60, 11, want=want, prop="C01")
     # the design-level counterexample on real raft: a peer holding a CID is down while the CID is
     # unpinned and the leader compacts its log, then comes back
+    # AckDurable on the real outcome: submissions at followers while the leader is healthy, while its
+    # Consensus RPC endpoint refuses every redirect attempt, and right after it was shut down
+    def want_fault(steps):
+        acts = [s["a"] for s in steps]
+        return any(a in ("fpin", "funpin") for a in acts) and "rm" not in acts and "add" not in acts
+
+    def want_crash(steps):
+        acts = [s["a"] for s in steps]
+        return any(a in ("cpin", "cunpin") for a in acts) and "rm" not in acts and "add" not in acts
+
+    nf = 3 if ctx.quick() else 20
+    for w in (want_fault, want_crash):
+        extra = c17.scripts_from_graph(ctx, rng, gen_cfg, nf, 11, want=w, prop="C01")
+        for e in extra:
+            e["id"] = 2000 + len(scripts)
+            scripts.append(e)
     scripts += c17.goal_scripts(ctx, ["NoRestartAfterUnpin", "NoRestartAfterChurn"], (3, 2, 5, 2, 2), "C01", 1000)
     ctx.extra["raft_seam_scripts"] = len(scripts)
     c17.run_member_driver(ctx, scripts, "C01", "c01raft", 8)
